@@ -1,5 +1,6 @@
 import LP.Props.C12
 import LP.Props.C12Exact
+import LP.Props.C12Compl
 #print axioms LP.Eval.C12_negate
 #print axioms LP.Eval.C12_root_constraint
 #print axioms LP.Eval.C10_sign_sound
@@ -14,3 +15,5 @@ import LP.Props.C12Exact
 #print axioms LP.Eval.C12_feasible_exact
 #print axioms LP.Eval.identicallyZero_sound
 #print axioms LP.Eval.C12_feasible_exact_zero
+#print axioms LP.Compl.go_mem
+#print axioms LP.Compl.C12_complement_exact
